@@ -43,7 +43,9 @@ def stream_rows(ctx, ntables):
     for _ in range(ntables):
         t = ES.gen_typed_table(R, max_rows=R.choice([60, 200, 400]))
         t["pids"] = None; t["pid_mode"] = "unique"
-        if R.random() < 0.35:      # noise switched off
+        if R.random() < 0.3:       # suppression noise much larger than the count noise (the row-count bound depends on the latter only)
+            t["ap"] = replace(t["ap"], low_count_params=replace(t["ap"].low_count_params, layer_sd=R.choice([2.0, 4.0])), layer_noise_sd=R.choice([0.0, 0.25]))
+        elif R.random() < 0.35:      # noise switched off
             t["ap"] = replace(t["ap"], low_count_params=replace(t["ap"].low_count_params, layer_sd=0.0), layer_noise_sd=0.0)
         if R.random() < 0.3:       # extreme outliers / boundary values in numeric columns
             for c, k in zip(t["df"].columns, t["kinds"]):
